@@ -66,6 +66,7 @@ def check_values(case, trace):
             return "build %d of %s: unexpected %s" % (
                 b["n"], op["key"], [e for e in b["events"] if e[0] in ("cycle", "error", "deadlock")][0]), info
         if got != expect:
+            info["stale_build"] = bi - 1
             return "build %d of %s returned %s, clean build gives %s" % (b["n"], op["key"], got or "-", expect), info
         tid2key = {}
         executed = set()
@@ -89,6 +90,7 @@ def check_values(case, trace):
                 val = "" if e[4] == "-" else e[4]
                 fresh = w.evaluate(want_key, memo)
                 if val != fresh:
+                    info["stale_build"] = bi - 1
                     return "build %d: task %s was handed stale %s=%s (current value %s)" % (
                         b["n"], rk, want_key, val or "-", fresh), info
         if info["builds"] >= 2 and changed_since_build and executed and uptodate:
